@@ -26,7 +26,7 @@ CLAIMS = {
  'C05': dict(
     text=("Decides, from the source, the ordering clauses of crash safety on every path, loop iteration and flag specialisation: "
           "(R1) a loose object is written in the sandbox, flushed and closed, then published by one atomic rename/replace, and nothing opens a file under loose/ for writing; "
-          "(R2) in every pack-writing entry point an index row is committed only after its pack bytes were flushed/closed, a loose file is unlinked only after its row is committed, every staged row is inserted and committed; "
+          "(R2) in every pack-writing entry point an index row is committed only after its pack bytes were flushed/closed, a loose file is unlinked only after its row is committed and only for keys staged by this call (a collection feeding unlinks may only be filled next to a staging site), every staged row is inserted and committed; "
           "(R3) clean_storage decides unlinks on a query run after a session refresh; (R4) repack state machine: the file the committed index designates is always present and flushed (or the index points to the temporary pack); "
           "(R5) delete: files first, then rows, one commit after the loop. Does NOT decide what the real kernel/SQLite leave on disk after a kill, nor byte-level completeness: only the order of effects (a necessary condition)."),
     note="Trusted: POSIX rename/replace/link atomicity, SQLite atomic commit, O_APPEND; single packer; generators treated as eagerly consumed; Python dynamism not modelled.",
@@ -47,7 +47,7 @@ CLAIMS = {
     technique="static typestate analysis on ICFGs with exception edges + handler-routing/provenance checks on the read funnel", ref="5/C04"),
  'C17': dict(
     text=("Decides, on control-flow graphs with exception edges (any call may raise): (R2) no except clause of the package that catches a generic I/O or database error around a mutating effect continues normally (table of allowed narrow idioms); "
-          "(R3) the C05 commit/unlink/publish/repack guards also hold along handler, finally and with-exit paths, and no index row is staged or tracked for an object whose processing was interrupted by a swallowed exception; "
+          "(R3) the C05 commit/unlink/publish/repack guards also hold along handler, finally and with-exit paths, no index row is staged or tracked for an object whose processing was interrupted by a swallowed exception, and offset/length of every staged row are taken from the handle after any interrupted write (range machine on the exception graph); "
           "(R4) HashWriterWrapper.write checks the stream position before writing and updates hash/position only after it. Does NOT decide the behaviour of real calls under injected faults nor that a rerun succeeds."),
     note="Fault model: one call raises OSError/OperationalError; PermissionError (Windows locking) handlers only checked by R3; stale lock files / sandbox litter tolerated by the property.",
     technique="static typestate analysis on exception-edge CFGs + error-discipline table over all except clauses", ref="5/C17"),
@@ -61,14 +61,14 @@ CLAIMS = {
  'C13': dict(
     text=("Decides: (R1) closed-world ownership: pack files are opened for writing only by lock_pack in mode 'ab' and written only through that handle; (R4) only repack_pack unlinks/links pack files; "
           "(R2) in both write loops the target pack is re-selected before every object, with a known size that is a tell() not invalidated by a later write/seek/truncate, compared with the locked id (different => re-lock), and the locked id comes from the selector; "
-          "(R2s) the selector starts at the cached id or 0, advances by exactly 1 and stops at the first missing or strictly-below-target pack; (R3) seek only to a tell() of the same iteration, truncate() without size. "
+          "(R2s) the selector starts at the cached id or 0, advances by exactly 1, stops at the first missing or strictly-below-target pack, compares the caller's known size when given (else stat) and caches exactly the returned id; (R1x) the lock file is created exclusively (mode 'x') around the append handle; (R3) seek only to a tell() of the same iteration, truncate() without size. "
           "Does NOT decide byte-for-byte immutability over histories as values."),
     note="Trusted: O_APPEND never overwrites; exclusive lock file = one packer.",
     technique="kind-resolved ownership scan + per-iteration typestate on ICFGs + structural checks of the selector", ref="5/C13"),
  'C07': dict(
     text=("Decides API-contract shape clauses of the stream classes: (R1) in PackedObjectReader.seek, for each whence value, lower and upper bounds are checked on the variable that determines the new handle position after its last assignment and before the handle moves; "
           "(R2) the value returned is that normalised absolute target (whence=1 via tell(), whence=2 via the length) / the decompresser returns its position; (R3) every read of the pack handle is bounded by length-position and the position is refreshed after every move; "
-          "(R4) invalid whence rejected first; (R5) decompresser: negative target rejected before any state change, forward loop stops on empty read, proxy switch one-way, after open_stream()+seek(pos), tested first by read/tell/seek; (R6) rewind resets every state attribute __init__ initialises. "
+          "(R4) invalid whence rejected first; (R5) decompresser: negative target rejected before any state change, forward loop stops on empty read, proxy switch one-way, after open_stream()+seek(pos), tested first by read/tell/seek; (R6) rewind resets every state attribute __init__ initialises; (R7) PackedObjectReader converts between object and pack-file coordinates only as handle.tell() - offset and offset + target, read-all branch selected exactly by size None/negative; (R8) decompresser: position advanced by exactly the returned head of the buffer (buffer cut at one index), forward seek reads at most up to the target, a backward target rewinds first. "
           "Does NOT decide equality with io.BytesIO for all programs/contents (values)."),
     note="The loose stream is a regular Python file object (trusted).",
     technique="per-whence typestate on the method CFG + def-use / sibling-agreement checks over the stream classes", ref="5/C07"),
@@ -82,14 +82,14 @@ CLAIMS = {
     text=("Decides structural clauses of import_objects: (R1) every Iterable-annotated parameter of the package is consumed at most once per path before being materialised (linear typestate; covers one-shot generators); "
           "(R2) compress/do_fsync forwarded unchanged and do_commit=False at the three add call sites, exactly one commit that every normal path passes, after the last add; "
           "(R3) same hash algorithm: only Location.LEFTONLY keys of the sorted merge are transferred; different algorithms: constant propagation shows no_holes=True and no_holes_read_twice=True at every add call; "
-          "(R4) the old/new key lists of the returned mapping grow in lockstep (paired append / extension from one zip(*cache.items()) whose contents are what is added), the cache is reset with every in-loop flush and flushed after the loop. "
+          "(R4) the old/new key lists of the returned mapping grow in lockstep (paired append / extension from one zip(*cache.items()) whose contents are what is added), the cache is reset with every in-loop flush and flushed after the loop; (R5) direction: objects are read from the source container parameter, existence listing / writes / commit happen on self, and the fast path is chosen by comparing the two containers' hash types. "
           "Does NOT decide byte identity of transferred objects."),
     note="Assumes add_objects_to_pack returns keys in input order (C01/C09 rules) and dict insertion order.",
     technique="linear typestate + constant propagation on ICFGs + def-use matching", ref="5/C14"),
  'C15': dict(
     text=("Decides structural clauses of backup_container: (R1) copy steps classified by the kind of their source path run in the order loose -> index dump -> copy of the dump -> packs -> rest on every path; "
           "(R2) the copied index is the temporary dump written by sqlite3.Connection.backup, never the live file; (R3) the constant exclude patterns of the final copy, evaluated with rsync name matching, cover loose/, packs/, the index and the -wal/-shm side files implied by journal_mode=wal; "
-          "(R4) rsync exit status raises, no handler in the backup path swallows errors, the live-backup folder is renamed only after the backup function returned. Does NOT decide the schedules (placements of concurrent steps)."),
+          "(R4) rsync exit status raises, no handler in the backup path swallows errors, the live-backup folder is renamed only after the backup function returned; (R2b) the dump is transferred under the index' own file name and no live-index metadata is copied onto it; (R5) closed table of rsync options: every constant option of call_rsync and every per-call extra argument is reviewed (only --exclude per call). Does NOT decide the schedules (placements of concurrent steps)."),
     note="Relies on C13/C05 (append-only packs, commit after write) as the property's own anchor says; only simple exclude patterns are evaluated.",
     technique="ordering typestate over kind-classified copy steps + constant pattern evaluation + error-propagation checks", ref="5/C15"),
  'C18': dict(
@@ -100,7 +100,7 @@ CLAIMS = {
     technique="leak / one-open-file typestate on CFGs with exception edges + platform-aware constant folding + bounded-read table", ref="5/C18"),
  'C01': dict(
     text=("Decides structural clauses of the round trip on every write/read path: (R1) every chunked copy/hash loop ends only on the empty chunk, each chunk reaches the sink exactly once and the hasher exactly once on every path through the body (uncompressed bytes hashed), the compressor is flushed after the loop; "
-          "(R2) returned key = hexdigest of the hasher that saw the written bytes, returned size = accumulated chunk lengths, the loose key is the writing wrapper's digest, one returned key per stream in the direct path; "
+          "(R2) returned key = hexdigest of the hasher that saw the written bytes, returned size = accumulated chunk lengths, the loose key is the writing wrapper's digest, one returned key per stream in the direct path, and the key staged for a packed object is the digest returned by the call that appended its bytes with the configured hash type (not a separate pre-pass); "
           "(R3) configuration parametricity: every hash/compression argument is traced through parameters and constructor bindings at all call sites to the container configuration, literals are flagged (tabled exemptions: init defaults, AUTO sampling compressor); "
           "(R4) writer/reader agreement: loose path terms of writer, reader and listing; decompresser wraps the packed reader iff the row's compressed flag at every construction site; staged row keys = table columns; positional column order of every namedtuple construction and left_key; metadata field mapping; (R5) decompresser rewind resets all state. "
           "Does NOT decide value-level hashing/zlib/slicing arithmetic."),
@@ -108,28 +108,28 @@ CLAIMS = {
     technique="path enumeration over loop bodies + interprocedural provenance + sibling term comparison (AST/def-use)", ref="5/C01"),
  'C10': dict(
     text=("Decides: (R1) should_compress has a branch for every CompressMode member with the constant answer the mode demands (NO->False, YES->True, KEEP->source flag), raises otherwise, and bool maps to YES/NO; "
-          "(R2) the compressed flag stored in the index row is the very value that selects the writer's compressing branch (pack_all_loose, direct path, _write_data_to_packfile guards), and in repack it is decided for every object from that object's own stored form on every path, with a complete transfer branch table; "
-          "(R3) estimate_compression restores the stream position on every path (typestate) and should_compress touches the stream nowhere else; (R4) size = bytes read by the writer / copied from the row, totals map SUM(size)/SUM(length) to the right labels; (R5) decompresser rewind resets all state. "
+          "(R2) the compressed flag stored in the index row is the very value that selects the writer's compressing branch (pack_all_loose, direct path, _write_data_to_packfile guards), and in repack it is decided for every object from that object's own stored form on every path, with a complete transfer branch table, and every path that stages a row ran exactly one transfer loop in the form its tests select (raw copy iff flags equal / destination uncompressed; deflate + flush iff destination compressed); "
+          "(R3) estimate_compression restores the stream position on every path (typestate) and should_compress touches the stream nowhere else; (R4) size = bytes read by the writer / copied from the row, length = tell() difference around exactly this object's writes on every path incl. exception paths (range machine shared with C03.R1), totals map SUM(size)/SUM(length) to the right labels; (R5) decompresser rewind resets all state. "
           "Does NOT decide that inflate(deflate(x)) == x nor the AUTO heuristic's numeric choice."),
     note="zlib trusted.",
     technique="enum/branch table check + def-use agreement + position-restore typestate", ref="5/C10"),
  'C11': dict(
-    text=("Decides: (R1) every unlink and the DELETE of delete_objects are keyed by elements of the request parameter (duplicates by the exact prefix '<key>.'), the chunk loop feeds every chunk (<= 999) to both SELECT and DELETE; "
+    text=("Decides: (R1) every unlink and the DELETE of delete_objects are keyed by elements of the request parameter (duplicates by the exact prefix '<key>.'), the chunk loop feeds every chunk (<= 999) to both SELECT and DELETE and has no early exit; "
           "(R2) a cursor typestate shows the selected rows are consumed before a modifying statement runs on the same connection, and the returned keys are exactly (loose files actually removed) U (rows selected); "
-          "(R3) repack iterates exactly the rows of the pack in offset order, reads each object through a reader bounded by its own row, into a temporary pack whose absence is asserted before it is opened for appending; (R4) packs without rows are unlinked and repack() visits every pack. "
+          "(R3) repack iterates exactly the rows of the pack in offset order, reads each object through a reader bounded by its own row, into a temporary pack whose absence is asserted before it is opened for appending; (R4) packs without rows are unlinked -- and only those: the pack's own file is removed only after an existence query over its rows said none, or after the commit that re-pointed them -- and repack() visits every pack. "
           "Does NOT decide byte equality of the rewritten packs."),
     note="sqlite3 cursors are lazy against later modifications on the same connection.",
     technique="interprocedural provenance + cursor / freshness typestate + SQL statement terms", ref="5/C11"),
  'C12': dict(
-    text=("Decides completeness of the validator (necessary for 'never clean on a damaged one') and the pack set it opens (necessary for 'clean on reachable states'): (R1) every loose key is opened, rehashed with the configured type, a mismatch unconditionally recorded; "
-          "(R2) the packs visited are exactly SELECT DISTINCT pack_id of the index; per row (all rows of the pack, ORDER BY offset, positional unpacking) digest, size and strict overlap comparisons each record the key on the failing branch; "
+    text=("Decides completeness of the validator (necessary for 'never clean on a damaged one') and the pack set it opens (necessary for 'clean on reachable states'): (R1) the loop visits the whole loose listing (no removal, filter or skip), every loose key is opened, rehashed with the configured type, a mismatch unconditionally recorded; "
+          "(R2) the packs visited are exactly SELECT DISTINCT pack_id of the index; per row (all rows of the pack: WHERE exactly the pack id, ORDER BY offset, no LIMIT/paging, also through local generator helpers; variables identified by column position) digest, size and strict overlap comparisons each record the key on the failing branch; "
           "(R3) result keys = ValidationIssues fields, per-pack results accumulated with += for every pack, is_valid and the CLI exit status reflect every field. Does NOT decide absence of false positives on all reachable states nor detection of every bit flip (value-level)."),
     note="Hash collisions excluded; reader classes covered by C07.",
     technique="def-use / statement-shape checks + SQL statement terms", ref="5/C12"),
  'C16': dict(
     text=("Decides: (R1) sibling agreement of the four two-strategy lookups: each is normalised to a term (set, threshold, chunk source/size <= 999, IN column, ORDER BY hashkey scan, sorted right side, left_key column = hashkey, keep BOTH only, same selected columns, same accumulator/item) and all fields must agree; "
           "(R2) the funnel de-duplicates the request once, probes loose only for keys not found in the index, skip_if_missing guards only MISSING yields, has_objects answers element-wise over the original list; "
-          "(R3) both primary-key paging loops: id > last (strict), ORDER BY id, LIMIT, last = id of the last row, start -1, stop on empty page, all rows consumed; (R4) detect_where_sorted guards (new <= last -> ValueError on both sides, left_key applied), chunk_iterator / merge_sorted shapes, IN batch <= 999. "
+          "(R3) every paging loop (discovered by def-use: a SELECT whose WHERE mentions a local the loop updates): id > last (strict) as the only filter, ORDER BY id, LIMIT, last = id of the last row, start -1, stop on empty page, all rows consumed; (R4) detect_where_sorted guards (new <= last -> ValueError on both sides, left_key applied), chunk_iterator / merge_sorted shapes, IN batch <= 999. "
           "Does NOT decide the correctness of detect_where_sorted's merge control logic for all pairs of sequences (value-level)."),
     note="SQLITE_MAX_VARIABLE_NUMBER >= 999; SQLite and Python order hex keys identically.",
     technique="sibling-term extraction and comparison over AST/SQL terms", ref="5/C16"),
